@@ -122,6 +122,8 @@ func runC09(c *Ctx, r *Report) {
 	importRules(c, r, "C02", []string{"R-C02.4"}, "R-C09.19")
 	r.Doc("R-C09.20", "the deadline of a fetch is derived once, in Fetch, and the workers touch nothing the dispatcher shares without its mutex (adopted from C11: a per-request timeout chained onto the dispatcher's own context — and cancelled by the first worker that finishes — makes the dispatcher's next slot acquisition fail; it leaves silently and every loader returns little more than the heads, with no error)")
 	importRules(c, r, "C11", []string{"R-C11.12", "R-C11.4"}, "R-C09.20")
+	r.Doc("R-C09.21", "the worker semaphore of the fetcher is made with a weight known to be positive on every path (a concurrency below zero passed through unchanged never grants a slot: the load comes back empty, or never)")
+	workerSlotsArePositive(c, r, "R-C09.21")
 	r.Doc("R-C09.10", "the loops that publish the heads, select the loaded heads and queue links process every element")
 	loopsComplete(c, r, "R-C09.10", func(fn *Fn) bool {
 		return rootNamed(fn, "ToJSONLog", "entrySliceToCids", "fromMultihash", "fromEntryHash", "fromJSON", "fromEntry", "NewFromMultihash", "addHashesToQueue", "addNextEntry", "NewOrderedMapFromEntries")
